@@ -11,7 +11,10 @@ def main():
     for f in sorted(glob.glob(os.path.join(leanbuild.LEAN_SRC, "Generated", "*.lean"))):
         mods.append("Generated." + os.path.basename(f)[:-5])
     used = sorted({registry.LEAN[k] for p in registry.PROPS.values() for k in p.get("lean", [])})
-    mods += used
+    mods += used + [registry.WITNESS_MODULE]
+    # equivalence rescue (DESIGN.md §13.7): the contract text against the committed snapshot lean/Baseline
+    from . import baseline
+    mods += baseline.contracts_base(leanbuild.LEAN_SRC, used) + ["Spec.Refactor"]
     res = leanbuild.build(mods, verbose=True)
     bad = [r for r in res.values() if not r.ok]
     for r in bad:
